@@ -11,7 +11,7 @@ ID = "C11"
 LEVEL = "fault_enumeration"
 RULE = ("Hypothesis draws a recording (AP/LF/nidq, 1..384 channels, integer or fractional sampling rate, ns_file 1..60 "
         "samples written, metadata announcing fewer / equal / more samples, or lacking the end-of-run size keys for the "
-        "online reader; offline Reader or OnlineReader; ignore_warnings on or off). For that recording EVERY truncation point of the writer is "
+        "online reader; offline Reader or OnlineReader; ignore_warnings on or off; opened at construction or constructed with open=False on a shorter file that then grows to the length under test before open()). For that recording EVERY truncation point of the writer is "
         "enumerated: all byte lengths from one complete frame to the full size (all 0..frame-1 trailing bytes) when there "
         "are <= 1600 of them, otherwise every trailing-byte count for the first, last and two drawn frame counts plus "
         "+-1 byte around every frame boundary. cbin sub-case: a compressed stream holding k < announced frames for every k. "
@@ -49,7 +49,10 @@ def _case(draw):
             "pick": [draw(st.integers(0, 10 ** 6)), draw(st.integers(0, 10 ** 6))],
             "cbin": draw(st.integers(0, 3)) == 0 and reader == "offline", "chunk": draw(st.integers(3, 25)),
             # ignore_warnings is documented as silencing the size-mismatch log for streamed data: same exposed samples
-            "quiet": draw(st.sampled_from([False, False, True]))}
+            "quiet": draw(st.sampled_from([False, False, True])),
+            # "grow": the reader is constructed with open=False while the file is still shorter (copy / acquisition in
+            # progress), the file then grows to the length under test, and only then is the reader opened
+            "deferred": draw(st.sampled_from([None, None, "grow"]))}
 
 
 def strategy(tier):
@@ -95,16 +98,34 @@ def run_case(case, ctx):
         ctx.label("all_lengths" if full_enum else "structured_lengths")
         ctx.stat("truncation_points_max", len(lengths))
         s2v = None
+        full = D.tobytes()
+        deferred = case.get("deferred")
+        ctx.label("deferred_" + str(deferred))
         for L in lengths:
-            os.truncate(binf, L)
             n = L // frame
             trail = L - n * frame
             if trail * 2 >= frame or (fs != int(fs) and spec["ns"] != n):
                 ctx.nontrivial = True
             ctx.label("trail_ge_half" if trail * 2 >= frame else ("trail_partial" if trail else "trail_0"))
-            sr = ctx.call("C11.open", Cls, binf, sort=False, ignore_warnings=bool(case.get("quiet")))
-            if sr is ctx.CRASH:
-                return
+            L0 = max(frame, L - [1, frame // 2 + 1, frame, 3 * frame + 1][(case["pick"][0] + L) % 4]) if deferred == "grow" else L
+            if L0 < L:
+                binf.write_bytes(full[:L0])
+                sr = ctx.call("C11.construct", Cls, binf, sort=False, open=False, ignore_warnings=bool(case.get("quiet")))
+                if sr is ctx.CRASH:
+                    return
+                with open(binf, "ab") as fid:
+                    fid.write(full[L0:L])
+                if ctx.call("C11.open", sr.open) is ctx.CRASH:
+                    return
+                ctx.label("opened_after_growth")
+            else:
+                if deferred == "grow":
+                    binf.write_bytes(full[:L])
+                else:
+                    os.truncate(binf, L)
+                sr = ctx.call("C11.open", Cls, binf, sort=False, ignore_warnings=bool(case.get("quiet")))
+                if sr is ctx.CRASH:
+                    return
             try:
                 if not _check_open(ctx, sr, D, n, nc, fs, L):
                     return
